@@ -14,9 +14,16 @@ TRUSTED_BASE = [
     "checked by the residual oracle (all three back ends and the default one, which must also agree with each other)",
     "exact mode: the model runs the recursions in exact Gaussian rationals on the doubles the implementation receives; "
     "agreement required to rtol 1e-7 (conditioning predicate: every stage error P_j >= 1e-6 r0)",
+    "near-singular class: positive definiteness is certified by the harness's own exact rational Levinson recursion "
+    "(fractions.Fraction, props/c10.py:_exact_lev) and, independently, by the Lean model in exact mode (it must return: an "
+    "implementation that raises is a correspondence failure); agreement required to rtol max(1e-7, Cerr*eps/rho), "
+    "rho = exact P/r0, Cerr = 30 x the measured error constant of the family",
 ]
 PARTIAL = ["CHOLESKY: LAPACK glue, no model: residual oracle on every back end plus mutual agreement of the back ends (stability of the prediction polynomial is proved for every order: "
-           "C10.levinson_stable, Schur-Cohn by the elementary |A| >= |B| invariant)"]
+           "C10.levinson_stable, Schur-Cohn by the elementary |A| >= |B| invariant)",
+           "near-singular positive-definite class: the value comparison with the exact model degrades with eps/rho (vacuous "
+           "within ~Cerr of the lower edge; the return / P > 0 / |k_i| < 1 / nesting / residual clauses stay sharp); "
+           "positive-definite sequences with rho < Kdom*eps are not generated (double-precision round-off limit)"]
 ASSUMPTIONS = ["positive-definite sequences are biased autocorrelations of random data; 'clearly indefinite' ones have a "
                "stage error <= -1e-3 r0 (and no stage error within 1e-6 r0 of zero); exactly singular ones have a stage "
                "error that is 0.0 in double precision (small integer / dyadic lags)",
@@ -25,13 +32,28 @@ ASSUMPTIONS = ["positive-definite sequences are biased autocorrelations of rando
                "HERMTOEP / LEVINSON: the zero-lag value is real (the stage error P is real), so numpy's lexicographic "
                "complex `<=` and the model's `re P <= 0` coincide; TOEPLITZ: exact zero test on both sides",
                "entry forms: numpy arrays (float64, complex128, integer dtypes), lists, tuples, nested lists, numpy "
-               "scalars for T0 / order; a Python complex T0 for HERMTOEP is outside the statement"]
+               "scalars for T0 / order; a Python complex T0 for HERMTOEP is outside the statement",
+               "nearly singular positive-definite sequences (1e-6 > rho = P_p/r0): the class is rho >= Kdom*eps with Kdom = 8 "
+               "(AR(1)), 32 (constant + floor), 200..3200 (rounded phases, tones, lattices): below a few eps (tens of eps "
+               "for the less structured families) the double-precision recursion loses the pivot to its own rounding and "
+               "raises on an exactly positive-definite sequence (PENDING-FINDING, reproducer /tmp/finding_C10.py); the "
+               "exact Schur-Cohn stability test is demanded for rho >= Kstab*eps (64..640 by family)"]
 RULE = ("PD sequences = biased autocorrelation of random dyadic data (real/complex), length 2..40, all orders (incl. 0), "
         "amplitudes 2^-100..2^70, leading-block-PD sequences with an indefinite tail, exactly zero first / later "
         "reflection coefficients; clearly indefinite sequences (strict and allow_singularity=True, full and partial "
         "orders) and exactly singular ones; random diagonally dominant Toeplitz / Hermitian-PD systems and "
         "right-hand sides at independent amplitudes 2^-80..2^70; Cholesky on Toeplitz and on G^H G + I matrices "
-        "(n = 1..24, 1-D and (n,3) right-hand sides, C / Fortran order); every entry form; non-trivial = order >= 1")
+        "(n = 1..24, 1-D and (n,3) right-hand sides, C / Fortran order); every entry form; non-trivial = order >= 1; "
+        "CERTIFIED nearly singular positive-definite sequences (exact rational recursion: all stage errors > 0), "
+        "Kdom*eps <= P/r0 <= 1e-6, half of them within 8x of the lower edge: constant / AR(1) signals with exact (1,-1,i,-i) "
+        "or rounded random unit-phase modulation (c, a = 1-t, also 1-2^-m), 1-3 strong tones + tiny white floor, lattices "
+        "with one |k| next to 1; n = 2..40, the largest or a random order of the class, amplitudes 2^-200..2^200, lists; "
+        "a fixed core at n = 24..40 with P/r0 within a few (order+1)*eps; LEVINSON must return with P > 0, |k_i| < 1, the "
+        "identity residual <= 400 eps r0 |[1,a]|_1, a stable polynomial (exact Schur-Cohn), EVERY lower order returning "
+        "the same leading reflection coefficients, allow_singularity=True / order omitted giving the identical result; "
+        "the same matrices (n <= 12) as systems for HERMTOEP and TOEPLITZ (return, finite, backward-error residual); "
+        "well-conditioned Hermitian / real symmetric INDEFINITE and negative-definite systems through the general solver "
+        "(first row = conj(first column), real diagonal; cond <= 1e3, every stage error >= 1e-3 |T0| in modulus)")
 
 
 def _sp():
@@ -230,7 +252,11 @@ def model_toep(p):
 
 
 def oracle_toep(p):
-    x = impl_toep(p)[0]
+    try:
+        x = impl_toep(p)[0]
+    except Exception as e:
+        return ["TOEPLITZ raised %r on a non-singular Toeplitz system (n=%d, T0=%r, %s, form %s)" % (
+            e, len(np.asarray(p["Z"])), p["T0"], p.get("fam", "general"), p.get("form"))]
     T = sp_toeplitz(np.concatenate(([p["T0"]], np.asarray(p["TC"]))), np.concatenate(([p["T0"]], np.asarray(p["TR"]))))
     z = np.asarray(p["Z"])
     if x.shape != z.shape:
@@ -312,7 +338,8 @@ KINDS = {
     "hermtoep": {"impl": impl_herm, "model": model_herm, "oracle": oracle_herm, "rtol": 1e-7, "atol": 1e-300, "key": _key,
                  "tags": lambda p: ["herm:T-" + ("complex" if np.iscomplexobj(p["T"]) else "real") + "/Z-" + ("complex" if np.iscomplexobj(p["Z"]) else "real")] + _forms(p)},
     "toeplitz": {"impl": impl_toep, "model": model_toep, "oracle": oracle_toep, "rtol": 1e-7, "atol": 1e-300, "key": _key,
-                 "tags": lambda p: ["toep:" + ("complex" if np.iscomplexobj(p["TC"]) else "real")] + _forms(p)},
+                 "tags": lambda p: ["toep:" + ("complex" if np.iscomplexobj(p["TC"]) else "real")]
+                 + (["toep:" + p["fam"]] if p.get("fam") else []) + _forms(p)},
     "cholesky": {"oracle": oracle_chol, "key": _key,
                  "tags": lambda p: ["chol:" + str(np.asarray(p["A"]).dtype), "chol:B%dd" % np.asarray(p["B"]).ndim,
                                     "chol:" + p.get("fam", "toeplitz")] + _forms(p)},
@@ -344,6 +371,468 @@ def _stage_errors(r):
         if P == 0:
             break
     return out
+
+
+# --------------------------------------------------------------------------------------------------------------------
+# Positive-definite sequences that are NEARLY SINGULAR IN THE RELATIVE SENSE: final prediction-error ratio
+# rho = P_p / r0 between K*eps (K a small family constant, below) and 1e-6 -- the zone between "a stage error within 1e-6 r0
+# of zero" (where the ordinary families above stop) and the round-off level.  Positive definiteness is CERTIFIED, not
+# assumed: the Levinson recursion is run in exact Gaussian rationals (fractions.Fraction) on the doubles handed to the
+# library; all stage errors P_1..P_p > 0 <=> the leading (p+1)x(p+1) block is positive definite.  The Lean model in exact
+# mode does the same computation independently (correspondence: it must return, and so must the implementation).
+
+_EPS = 2.0 ** -52
+_NS_MAX = 1e-6          # upper end of the class (rho); the ordinary families take over above it
+
+# family: (Kdom, Cerr, Kstab)   -- all measured on the unchanged tree: every order 1..n-1 of about 13 000 sequences (n = 2..40,
+#                                  rho/eps in 1..2^32, two thirds of them in 1..2^10), 10 000 - 20 000 (sequence, order) samples per family
+#   Kdom : the class is rho >= Kdom*eps.  Below a few eps (a few tens for the less structured families) the double-precision
+#          recursion itself loses the pivot: its computed P goes <= 0 and LEVINSON raises on an exactly positive-definite r
+#          (the round-off limit of double precision; reported as a finding and excluded here -- # PENDING-FINDING).
+#          Largest rho/eps at which that was observed: const 3.65 (a sharp limit: 393 failures, all <= 3.65), ar1 none at all
+#          (19 500 samples down to rho = eps), constphi 5.96, ar1phi 12.5, toner 26.9, tonec 37.6, rc 60.9, rcc 103.
+#          Kdom = 8 x that for the two structured families (their failure limit is sharp, and a guard of the form
+#          `P <= (order+1)*eps*r0` lives just above it), 30 x that for the others (heavier tails).
+#   Cerr : |impl - exact| <= Cerr * eps / rho (relative to the largest entry of the output) for [1,a], P and k; 30 x the worst
+#          observed errP*rho/eps, errk*rho/eps, errA*rho/eps of the family (0.88, 15.3, 4.87, 10.2, 41.4, 32, 128, 107 for ar1, ar1phi, const, constphi, toner, tonec, rc, rcc).
+#   Kstab: the Schur-Cohn test on the returned doubles (exact rational step-down) is demanded for rho >= Kstab*eps; 30 x the
+#          largest rho/eps at which the returned polynomial was observed to be (marginally) unstable although all |k_i| < 1
+#          (none, 3.06, 12.8, 20.5, 4.29, 15.1, 21.2, 13 in the same order; const and ar1 also from a grid over n, 1-c and all orders).
+_NS = {
+    "const":    (32.0, 150.0, 400.0),
+    "constphi": (200.0, 320.0, 640.0),
+    "ar1":      (8.0, 32.0, 64.0),
+    "ar1phi":   (400.0, 500.0, 128.0),
+    "toner":    (800.0, 1300.0, 256.0),
+    "tonec":    (1200.0, 1000.0, 512.0),
+    "rc":       (2000.0, 4000.0, 640.0),
+    "rcc":      (3200.0, 3500.0, 512.0),
+}
+_NS_RES = 400.0         # |T_p [1,a] - [P,0..]| <= _NS_RES * eps * r0 * sum|[1,a]|   (worst observed ratio 10.5)
+_NS_PROD = 32.0         # |P - r0 prod(1-|k|^2)| <= _NS_PROD * eps * P * sum_j 1/(1-|k_j|^2)   (worst observed 1.01)
+_NS_FAMS = list(_NS)
+
+_exact_cache = {}
+
+
+def _exact_lev(r, p):
+    """exact Levinson recursion (Gaussian rationals) on the doubles r[0..p] -> (k, P, a): the reflection coefficients
+    [(re, im)], stage errors [P_1..] and final predictor ([re], [im]) of the stages that have a positive stage error;
+    fewer than p stages: the leading block of that order is NOT positive definite"""
+    from fractions import Fraction as F
+    r = np.asarray(r)
+    ck = (r[: p + 1].astype(complex).tobytes(), p)
+    if ck in _exact_cache:
+        return _exact_cache[ck]
+    re = [F(float(np.real(z))) for z in r[: p + 1]]
+    im = [F(float(np.imag(z))) for z in r[: p + 1]]
+    cplx = any(v != 0 for v in im)
+    P = re[0]
+    Ar, Ai, ks, Ps = [], [], [], []
+    for k in range(p if P > 0 else 0):
+        sr, si = re[k + 1], im[k + 1]
+        for j in range(k):
+            tr, ti = re[k - j], im[k - j]
+            sr += Ar[j] * tr - Ai[j] * ti
+            if cplx:
+                si += Ar[j] * ti + Ai[j] * tr
+        kr, ki = -sr / P, -si / P
+        P = P * (1 - (kr * kr + ki * ki))
+        if P <= 0:
+            break
+        ks.append((kr, ki))
+        Ps.append(P)
+        nAr = [Ar[j] + kr * Ar[k - 1 - j] + ki * Ai[k - 1 - j] for j in range(k)]
+        nAi = [Ai[j] + ki * Ar[k - 1 - j] - kr * Ai[k - 1 - j] for j in range(k)] if cplx else [F(0)] * k
+        Ar, Ai = nAr + [kr], nAi + [ki]
+    if len(_exact_cache) > 4000:
+        _exact_cache.clear()
+    _exact_cache[ck] = (ks, Ps, (Ar, Ai))
+    return _exact_cache[ck]
+
+
+def _schur_cohn_exact(a):
+    """exact step-down recursion on the doubles a_1..a_p: True iff 1 + a_1 z^-1 + ... has all its zeros inside the unit circle"""
+    from fractions import Fraction as F
+    Ar = [F(float(np.real(z))) for z in a]
+    Ai = [F(float(np.imag(z))) for z in a]
+    while Ar:
+        kr, ki = Ar[-1], Ai[-1]
+        d = 1 - (kr * kr + ki * ki)
+        if d <= 0:
+            return False
+        m = len(Ar) - 1
+        Ar, Ai = ([(Ar[j] - (kr * Ar[m - 1 - j] + ki * Ai[m - 1 - j])) / d for j in range(m)],
+                  [(Ai[j] - (ki * Ar[m - 1 - j] - kr * Ai[m - 1 - j])) / d for j in range(m)])
+    return True
+
+
+def _ns_ratio(r, order):
+    """(rho/eps, number of positive stages) of the exact recursion to `order`"""
+    from fractions import Fraction as F
+    ks, Ps, _ = _exact_lev(r, order)
+    if not Ps:
+        return 0.0, 0
+    return float(Ps[-1] / F(float(np.real(r[0])))) / _EPS, len(Ps)
+
+
+def _ns_domain(p, r, order):
+    """None when (r, order) is in the near-singular class of family p['fam'], else the reason"""
+    x, stages = _ns_ratio(r, order)
+    if stages < order:
+        return "not positive definite to order %d (exact recursion: stage error %d is <= 0)" % (order, stages + 1)
+    if not _NS[p["fam"]][0] <= x <= _NS_MAX / _EPS:
+        return "P/r0 = %.3g eps outside the class [%g eps, %g]" % (x, _NS[p["fam"]][0], _NS_MAX)
+    return None
+
+
+def _same(u, v, tol=1e-13):
+    u = np.asarray(u, dtype=complex)
+    v = np.asarray(v, dtype=complex)
+    return u.shape == v.shape and (u.size == 0 or bool(np.max(np.abs(u - v)) <= tol * max(np.max(np.abs(v)), 1e-300)))
+
+
+def oracle_levns(p):
+    r = np.asarray(p["r"])
+    n = len(r)
+    order = n - 1 if p["order"] is None else p["order"]
+    why = _ns_domain(p, r, order)
+    if why:
+        return ["harness: case outside the near-singular positive-definite class: " + why]
+    Kdom, Cerr, Kstab = _NS[p["fam"]]
+    x, _ = _ns_ratio(r, order)
+    r0 = float(np.real(r[0]))
+    what = "exact rational certificate: all %d stage errors > 0, P/r0 = %.3g = %.1f eps; n=%d order=%s %s fam=%s" % (
+        order, x * _EPS, x, n, p["order"], "complex" if np.iscomplexobj(r) else "real", p["fam"])
+    try:
+        A, P, k = _lev_call(p, allow=False)
+    except Exception as e:
+        return ["LEVINSON raised %r on a positive-definite sequence (%s)" % (e, what)]
+    A = np.asarray(A)
+    k = np.asarray(k)
+    if len(A) != order or len(k) != order:
+        return ["LEVINSON returned %d coefficients for order %d" % (len(A), order)]
+    out = []
+    if not (np.isreal(P) and np.isfinite(P) and P > 0):
+        return ["P = %r is not a positive real on a positive-definite sequence (%s)" % (P, what)]
+    kc = k.astype(complex)
+    m2 = kc.real ** 2 + kc.imag ** 2
+    if not np.all(m2 < 1):
+        return ["reflection coefficient of modulus >= 1 on a positive-definite sequence (%s)" % what]
+    v = np.concatenate(([1], A))
+    lhs = _T(r, order) @ v
+    lhs[0] -= P
+    # measured: at most 10.5 * eps * r0 * sum|[1,a]| on the unchanged code (backward-stable in this sense whatever rho is)
+    if not np.max(np.abs(lhs)) <= _NS_RES * _EPS * r0 * np.sum(np.abs(v)):
+        out.append("T_p [1,a]^T != [P,0..0]^T: residual %.2e > %.2e (%s)" % (
+            np.max(np.abs(lhs)), _NS_RES * _EPS * r0 * np.sum(np.abs(v)), what))
+    # the doubles k_i carry 1-|k_i|^2 to a relative accuracy eps/(1-|k_i|^2) only: measured at most 1.01 x eps x that sum
+    Pk = r0 * np.prod(1 - m2)
+    if not abs(P - Pk) <= _NS_PROD * _EPS * P * np.sum(1 / (1 - m2)):
+        out.append("P != r0*prod(1-|k_i|^2): %r vs %r (%s)" % (P, Pk, what))
+    if x >= Kstab and not _schur_cohn_exact(A):
+        out.append("prediction polynomial not stable (exact Schur-Cohn test on the returned coefficients; %s)" % what)
+    # the outcome depends on the data only: every lower order returns as well, with the SAME reflection coefficients (the
+    # first q stages are the same floating-point operations: observed difference 0), a larger error, and the full-order
+    # result does not depend on how the order is passed or on allow_singularity
+    Pprev = None
+    for q in range(order - 1, 0, -1):
+        try:
+            A2, P2, k2 = _lev_call(p, order=q, allow=False)
+        except Exception as e:
+            out.append("LEVINSON(order=%d) raised %r although order %d returns on the same sequence (%s)" % (q, e, order, what))
+            break
+        if not _same(k2, kc[:q]):
+            out.append("order-%d reflection coefficients are not the first %d of the order-%d ones (max diff %.2e; %s)" % (
+                q, q, order, np.max(np.abs(np.asarray(k2, dtype=complex) - kc[:q])), what))
+            break
+        if not (P2 >= (P if Pprev is None else Pprev) > 0):
+            out.append("prediction error not non-increasing with the order: P_%d = %r < P_%d = %r (%s)" % (
+                q, P2, q + 1, P if Pprev is None else Pprev, what))
+            break
+        Pprev = P2
+    try:
+        A3, P3, k3 = _lev_call(p, allow=True)
+        if not (_same(A3, A) and _same([P3], [P]) and _same(k3, k)):
+            out.append("allow_singularity=True changes the result on a positive-definite sequence (%s)" % what)
+    except Exception as e:
+        out.append("LEVINSON(allow_singularity=True) raised %r on a positive-definite sequence (%s)" % (e, what))
+    if order == n - 1:
+        for al in (False, True):
+            try:
+                A4, P4, k4 = _sp().LEVINSON(_form(r, p.get("form")), allow_singularity=al)
+                if not (_same(A4, A) and _same([P4], [P]) and _same(k4, k)):
+                    out.append("LEVINSON(r) and LEVINSON(r, len(r)-1) differ (%s)" % what)
+            except Exception as e:
+                out.append("LEVINSON(r, allow_singularity=%s) raised %r although order=%d returns (%s)" % (al, e, order, what))
+    return out
+
+
+def _shrink(iv, mv, s):
+    """impl' = model + s*(impl - model): compare_vectors(impl', model, rtol) is then |impl - model| <= (rtol/s) * scale"""
+    iv2 = []
+    for a, b in zip(iv, mv):
+        a = np.atleast_1d(np.asarray(a)).astype(complex).ravel()
+        b = np.atleast_1d(np.asarray(b)).astype(complex).ravel()
+        iv2.append(b + (a - b) * s if a.shape == b.shape and np.all(np.isfinite(a)) else a)
+    return iv2, mv
+
+
+def _post_ns(p, iv, mv):
+    """correspondence with the exact model on a near-singular sequence: agreement to rtol max(1e-7, Cerr*eps/rho), rho = the
+    exact P/r0 of the MODEL's reply (the difference is shrunk by the factor that maps this onto the kind's rtol 1e-7)"""
+    if len(iv) != 3 or len(mv) != 3:
+        return iv, mv
+    rho = abs(np.asarray(mv[1]).ravel()[0]) / abs(np.real(np.asarray(p["r"]).ravel()[0]))
+    # the predictor is compared as the polynomial [1, a_1..a_p] (its coefficients can all be << 1)
+    iv = [np.concatenate(([1], np.asarray(iv[0]).ravel())), iv[1], iv[2]]
+    mv = [np.concatenate(([1], np.asarray(mv[0]).ravel())), mv[1], mv[2]]
+    return _shrink(iv, mv, min(1.0, 1e-7 * rho / (_NS[p["fam"]][1] * _EPS)))
+
+
+KINDS["levns"] = {"impl": impl_lev, "model": model_lev, "oracle": oracle_levns, "post": _post_ns, "rtol": 1e-7, "atol": 1e-300,
+                  "key": _key, "strict_errors": True,
+                  "tags": lambda p: ["lev:near-singular", "levns:" + p["fam"], "levns:" + ("complex" if np.iscomplexobj(p["r"]) else "real"),
+                                     "levns:" + p.get("zone", "?"), "levns:" + ("allow" if p["allow"] else "strict")] + _forms(p),
+                  "nontrivial": lambda p: len(p["r"]) >= 2}
+
+# the Hermitian solver has the same `P <= 0` guard (and the general one `P == 0`): the same certified near-singular
+# positive-definite matrices as SYSTEMS T x = z (n <= 12).  Both solvers must return a finite x; |T x - z| is held to the
+# existing (condition-scaled) tolerance and to the backward-error form  _NS_SOLRES * eps * 2 sum|r| * max|x|  (worst observed
+# ratio 2.37 over 18 000 systems of this generator on the unchanged tree, none raising / non-finite); correspondence with
+# the exact model to rtol max(1e-7, Csol*eps/rho), Csol = 30 x the worst observed err*rho/eps of the family
+# (2.9, 4.3, 2.9, 3.3, 66, 9.4, 19.3, 23.2 for ar1, ar1phi, const, constphi, toner, tonec, rc, rcc).
+_NS_SOLRES = 80.0
+_NS_SOL = {"const": 100.0, "constphi": 120.0, "ar1": 100.0, "ar1phi": 150.0, "toner": 2000.0, "tonec": 300.0,
+           "rc": 600.0, "rcc": 700.0}
+
+
+def _oracle_solns(p, name):
+    herm = name == "HERMTOEP"
+    Tl = np.asarray(p["T"] if herm else p["TC"])
+    r = np.concatenate(([p["T0"]], Tl))
+    if not herm and not np.array_equal(np.asarray(p["TR"]), np.conj(Tl)):
+        return ["harness: near-singular TOEPLITZ case whose first row is not the conjugate of its first column"]
+    order = len(Tl)
+    why = _ns_domain(p, r, order)
+    if why:
+        return ["harness: case outside the near-singular positive-definite class: " + why]
+    x0, _ = _ns_ratio(r, order)
+    what = "exact rational certificate: all %d stage errors > 0, P/r0 = %.3g = %.1f eps; n=%d %s fam=%s" % (
+        order, x0 * _EPS, x0, order + 1, "complex" if np.iscomplexobj(r) else "real", p["fam"])
+    try:
+        x = (impl_herm if herm else impl_toep)(p)[0]
+    except Exception as e:
+        return ["%s raised %r on a Hermitian positive-definite Toeplitz system (%s)" % (name, e, what)]
+    z = np.asarray(p["Z"])
+    if x.shape != z.shape:
+        return ["%s: solution of shape %s for a right-hand side of shape %s" % (name, x.shape, z.shape)]
+    if not np.all(np.isfinite(x)):
+        return ["%s: non-finite solution of a Hermitian positive-definite Toeplitz system (%s)" % (name, what)]
+    out = list((oracle_herm if herm else oracle_toep)(p))
+    T = sp_toeplitz(r, np.conj(r))
+    res = np.max(np.abs(T @ x - z))
+    tol = _NS_SOLRES * _EPS * 2 * np.sum(np.abs(r)) * np.max(np.abs(x))
+    if not res <= tol:
+        out.append("%s: T x != z, residual %.2e > %.2e (%s)" % (name, res, tol, what))
+    return out
+
+
+def _post_solns(p, iv, mv):
+    Tl = np.asarray(p["T"] if "T" in p else p["TC"])
+    x0, _ = _ns_ratio(np.concatenate(([p["T0"]], Tl)), len(Tl))
+    return _shrink(iv, mv, min(1.0, 1e-7 * x0 / _NS_SOL[p["fam"]]))
+
+
+def _soltags(p):
+    return ["sol:near-singular", "solns:" + p["fam"], "solns:" + p.get("zone", "?")] + _forms(p)
+
+
+KINDS["hermns"] = {"impl": impl_herm, "model": model_herm, "oracle": lambda p: _oracle_solns(p, "HERMTOEP"), "post": _post_solns,
+                   "rtol": 1e-7, "atol": 1e-300, "key": _key, "strict_errors": True, "tags": _soltags}
+KINDS["toepns"] = {"impl": impl_toep, "model": model_toep, "oracle": lambda p: _oracle_solns(p, "TOEPLITZ"), "post": _post_solns,
+                   "rtol": 1e-7, "atol": 1e-300, "key": _key, "strict_errors": True, "tags": _soltags}
+
+
+def _ns_phases(nrng, n, exact):
+    if exact:
+        u = [1, -1, 1j, -1j][int(nrng.integers(0, 4))]
+        return np.array([u ** k for k in range(n)])         # integer powers of 1, -1, i, -i: exact
+    return np.exp(1j * float(nrng.uniform(0.1, 3.0)) * np.arange(n))
+
+
+def _ns_sequence(nrng, fam, n, x):
+    """a member of family `fam` of length n whose final prediction-error ratio is about x*eps (what it really is, and whether
+    the rounded sequence is positive definite at all, is decided afterwards by the exact recursion)"""
+    t = x * _EPS
+    if fam in ("const", "constphi"):
+        # constant signal, modulated by an exact (1, -1, i, -i) or a rounded random unit phase, on a white floor 1-c below it:
+        # r = [1, c, ..., c] * u^k
+        c = 1.0 - t / (1 + 1.0 / max(1, n - 1))
+        if fam == "const" and nrng.integers(0, 2):
+            c = 1.0 - 2.0 ** np.floor(np.log2(1.0 - c))            # c = 1 - 2^-m
+        r = np.array([1.0] + [c] * (n - 1), dtype=complex) * _ns_phases(nrng, n, fam == "const")
+    elif fam in ("ar1", "ar1phi"):
+        # first-order autoregression with its pole next to the unit circle: r_k = a^k u^k
+        a = 1.0 - t / 2
+        if fam == "ar1" and nrng.integers(0, 2):
+            a = 1.0 - 2.0 ** np.floor(np.log2(1.0 - a))
+        r = np.array([a ** k for k in range(n)], dtype=complex) * _ns_phases(nrng, n, fam == "ar1")
+    elif fam in ("toner", "tonec"):
+        # 1..3 strong, well separated real / complex tones + a tiny white floor
+        q = int(nrng.integers(1, 4))
+        while True:
+            ws = nrng.uniform(0.4, 2.7, q)
+            d = [abs(u - v) for i, u in enumerate(ws) for v in ws[:i]]
+            if not d or min(d) >= 0.5:
+                break
+        amps = nrng.uniform(0.5, 1.0, q)
+        kk = np.arange(n)
+        r = sum(a * (np.exp(1j * w * kk) if fam == "tonec" else np.cos(w * kk)) for w, a in zip(ws, amps))
+        r = np.asarray(r / np.real(r[0]), dtype=complex)
+        r[0] = 1.0 + t
+    elif fam in ("rc", "rcc"):
+        # autocorrelation of a lattice filter with ONE reflection coefficient next to the unit circle at a random stage (the
+        # others moderate, a sparse tail): inverse Levinson recursion in double precision
+        ks = nrng.uniform(-0.5, 0.5, n - 1) * (np.exp(1j * nrng.uniform(0, 6.28, n - 1)) if fam == "rcc" else 1)
+        ks[int(nrng.integers(0, n - 1)):][1::2] = 0
+        j = int(nrng.integers(0, n - 1))
+        others = np.prod(1 - np.abs(np.delete(ks, j)) ** 2)
+        ks[j] = np.sqrt(max(0.0, 1 - min(0.75, t / others))) * (ks[j] / abs(ks[j]) if ks[j] != 0 else 1.0)
+        r = np.zeros(n, dtype=complex)
+        r[0] = 1.0
+        A = np.zeros(0, dtype=complex)
+        P = 1.0
+        for j in range(n - 1):
+            r[j + 1] = -ks[j] * P - (np.sum(A * r[j:0:-1][: len(A)]) if len(A) else 0)
+            A = np.concatenate((A + ks[j] * np.conj(A[::-1]), [ks[j]]))
+            P = P * (1 - abs(ks[j]) ** 2)
+    else:
+        raise ValueError(fam)
+    if np.all(r.imag == 0):
+        r = r.real.copy()
+    return r
+
+
+def _ns_draw(nrng, fam, nmin, nmax, i):
+    """(r, order, zone) in the near-singular class of `fam`, or None.  Half of the draws aim at the lower edge of the class
+    (rho within 8x of Kdom*eps: where a guard of the kind `P <= small * r0` would bite), half anywhere up to 1e-6."""
+    Kdom = _NS[fam][0]
+    n = int(nrng.integers(nmin, nmax + 1))
+    edge = i % 2 == 0
+    x = Kdom * 2.0 ** nrng.uniform(0, 3) if edge else 2.0 ** nrng.uniform(np.log2(Kdom), np.log2(_NS_MAX / _EPS))
+    r = _ns_sequence(nrng, fam, n, x)
+    from fractions import Fraction as F
+    ks, Ps, _ = _exact_lev(r, n - 1)
+    r0 = F(float(np.real(r[0])))
+    ok = [q for q in range(1, len(Ps) + 1) if Kdom <= float(Ps[q - 1] / r0) / _EPS <= _NS_MAX / _EPS]
+    if not ok:
+        return None
+    order = ok[-1] if (i // 2) % 2 == 0 else ok[int(nrng.integers(0, len(ok)))]
+    xo = float(Ps[order - 1] / r0) / _EPS
+    return r, order, ("rho<64eps" if xo < 64 else "rho<1e-12" if xo * _EPS < 1e-12 else "rho<1e-9" if xo * _EPS < 1e-9 else "rho<1e-6")
+
+
+def _gen_nearsing(nrng, tier):
+    thorough = tier != "quick"
+    # a fixed core (every run): exactly representable members with a closed-form spectrum -- Toeplitz([1,c,..,c] u^k) has the
+    # eigenvalues 1-c and 1+(n-1)c; r_k = a^k is the autocorrelation of a stable first-order recursion -- at the longest
+    # length, all at orders where rho is within a few (order+1)*eps
+    core = []
+    for n, m in [(40, 47), (40, 46), (33, 47), (24, 44)]:
+        for u in (1, 1j, -1):
+            core.append(("const", np.array([1.0] + [1.0 - 2.0 ** -m] * (n - 1)) * np.array([u ** k for k in range(n)])))
+    for n, m in [(40, 49), (40, 48), (24, 49), (12, 50), (12, 46)]:
+        for u in (1, -1j):
+            core.append(("ar1", np.array([(1.0 - 2.0 ** -m) ** k for k in range(n)]) * np.array([u ** k for k in range(n)])))
+    for i, (fam, r) in enumerate(core):
+        if np.all(np.imag(r) == 0):
+            r = np.real(r).copy()
+        n = len(r)
+        for order in ([None, n - 2] if i % 3 == 0 else [n - 1] if i % 3 == 1 else [None]):
+            o = n - 1 if order is None else order
+            sc = [1.0, 2.0 ** -150, 2.0 ** 150, 2.0 ** -40][i % 4]
+            p = {"r": r * sc, "order": order, "allow": bool(i % 2), "cls": "pd", "fam": fam}
+            if _ns_domain(p, p["r"], o) is None:
+                x, _ = _ns_ratio(p["r"], o)
+                p["zone"] = "rho<64eps" if x < 64 else "rho<1e-12"
+                if sc != 1.0:
+                    p["amp"] = "2^%d" % round(np.log2(sc))
+                yield ("levns", p)
+    # random members of every family
+    per = 8 if not thorough else 40
+    plan = [(_NS_FAMS[i % len(_NS_FAMS)], 2, i // len(_NS_FAMS)) for i in range(per * len(_NS_FAMS))]
+    # the two structured families reach down to a few eps: extra draws at the lower edge of the class on LONG sequences at
+    # the largest order (where a guard that grows with the order / the length would bite first)
+    plan += [(["ar1", "const"][i % 2], 24, 4 * (i // 2)) for i in range(2 * per)]
+    for fam, nmin, j in plan:
+        d = _ns_draw(nrng, fam, nmin, 40, j)
+        if d is None:
+            continue
+        r, order, zone = d
+        p = {"r": r, "order": None if (order == len(r) - 1 and j % 3 == 0) else order, "allow": bool((j // 2) % 2), "cls": "pd",
+             "fam": fam, "zone": zone}
+        if j % 3 == 1:
+            # positive definiteness and rho do not depend on the amplitude (powers of two: the certificate stays exact)
+            e = int(nrng.integers(-200, 201))
+            p["r"] = r * 2.0 ** e
+            p["amp"] = "2^%d" % e
+        if j % 5 == 4:
+            p["form"] = "list"
+        yield ("levns", p)
+    # the same matrices as systems for HERMTOEP and TOEPLITZ (n <= 12: the exact model of the solvers is slow beyond)
+    per = 2 if not thorough else 12
+    for i in range(per * len(_NS_FAMS)):
+        fam = _NS_FAMS[i % len(_NS_FAMS)]
+        j = i // len(_NS_FAMS)
+        d = _ns_draw(nrng, fam, 2, 12, j)
+        if d is None:
+            continue
+        r, order, zone = d
+        r = r[: order + 1]
+        zc = bool(nrng.integers(0, 2))
+        Z = dyadic(nrng, order + 1) + (1j * dyadic(nrng, order + 1) if zc else 0)
+        if not np.any(Z):
+            Z[0] = 1.0
+        s1 = _AMPS[int(nrng.integers(0, 4))] if j % 3 == 1 else 1.0
+        s2 = _AMPS[int(nrng.integers(0, 4))] if j % 3 == 2 else 1.0
+        p = {"T0": float(np.real(r[0])) * s1, "T": r[1:] * s1, "Z": Z * s2, "fam": fam, "zone": zone}
+        if s1 != 1.0 or s2 != 1.0:
+            p["amp"] = "2^%d/2^%d" % (round(np.log2(s1)), round(np.log2(s2)))
+        yield ("hermns", p)
+        q = {k: v for k, v in p.items() if k != "T"}
+        q["TC"] = p["T"]
+        q["TR"] = np.conj(p["T"])
+        yield ("toepns", q)
+
+
+def _gen_herm_general(nrng, tier):
+    """Hermitian / real symmetric systems that are NOT positive definite (indefinite or negative definite, well conditioned,
+    every leading minor away from zero) handed to the GENERAL solver with the first row exactly the conjugate of the first
+    column and a real diagonal: admissible for TOEPLITZ (only P = 0 is singular there), not for HERMTOEP; plus the
+    positive-definite case of the same shape"""
+    fixed = [(1.0, np.array([2.0, 0.5])), (-3.0, np.array([1.0, 0.5, -0.25])), (0.5, np.array([1.0 + 0.5j, -0.25j])),
+             (-2.0, np.array([0.5j, 0.25, 0.125 - 0.5j])), (2.0, np.array([0.5, -0.25, 0.125]))]
+    cases = [(t0, tc, k) for k, (t0, tc) in enumerate(fixed)]
+    for i in range(10 if tier == "quick" else 80):
+        n = int(nrng.integers(1, 9))
+        cplx = bool(i % 2)
+        tc = dyadic(nrng, n, bits=4, scale=1) + (1j * dyadic(nrng, n, bits=4, scale=1) if cplx else 0)
+        t0 = [-1.0, 0.5, 1.0, -2.5, 0.25][i % 5] * float(np.round(np.max(np.abs(tc)) * 8 + 1) / 8)
+        cases.append((t0, tc, i))
+    for t0, tc, i in cases:
+        r = np.concatenate(([t0], tc))
+        T = sp_toeplitz(r, np.conj(r))
+        se = _stage_errors(r) if t0 != 0 else [0.0]
+        if len(se) < len(tc) or min(abs(v) for v in se) < 1e-3 or np.linalg.cond(T) > 1e3:
+            continue
+        n = len(tc)
+        Z = dyadic(nrng, n + 1) + (1j * dyadic(nrng, n + 1) if (i // 2) % 2 else 0)
+        cls = "pd" if (t0 > 0 and min(np.real(se)) > 0) else "negdef" if (t0 < 0 and min(np.real(se)) > 0) else "indef"
+        p = {"T0": t0, "TC": tc, "TR": np.conj(tc), "Z": Z, "fam": "hermitian-" + cls}
+        if i % 3 == 2:
+            p["form"] = "list"
+        yield ("toeplitz", p)
 
 
 KINDS["single"] = single.kind("C10")
@@ -444,6 +933,10 @@ def gen(rng, nrng, tier):
             yield ("toeplitz", {"T0": T0g * s1, "TC": TC * s1, "TR": TR * s1, "Z": Z * s2, "amp": tag})
             yield ("cholesky", {"A": A * s1, "B": Z * s2, "amp": tag})
     yield from _gen_extra(nrng, tier, maxn)
+    # certified near-singular positive-definite sequences / systems (after everything else: the other families keep their
+    # random stream)
+    yield from _gen_nearsing(nrng, tier)
+    yield from _gen_herm_general(nrng, tier)
 
 
 _AMPS = [2.0 ** -80, 2.0 ** -30, 2.0 ** 40, 2.0 ** 70]
